@@ -18,6 +18,7 @@ PROP = {
              "or arrival of which not all are admitted, a registration while another arrival sits between its slot check and its registration, a shutdown with waiters, "
              "(real clock) a request expired by its TTL; distinct = canonical JSON of configuration + schedule"),
     "assumptions": [
+        "one tick step in eight begins with a tick in which the quota store fails the increment for the request the loop tries (fault point queue.quota-inc, hook ec5ca4b; the in-memory state never fails, a shared store can): nobody is admitted in that tick and the request keeps its place - the priority order of the later admissions is judged as always",
         "a quarter of the arrivals are held after their registration and before they start to wait for their verdict (hook queue.registered-before-wait) until the controller has processed the next tick or the shutdown: a verdict issued in that gap must still reach the request",
         "the gateway's log level (LOG_LEVEL: off in three cases of eight, else error / info / debug / trace; what is logged is thrown away, what a log statement does to build its arguments happens) is a generated part of every case of TestQueueSchedules: no answer may depend on it; a failing case reports its level",
         "one arrival in six of the virtual-clock schedules is a retried call: it carries the transaction id of an earlier request of the case that was allowed, has returned and whose clean-up has finished (the interceptors re-send x-lunar-req-id); it queues like any other arrival",
